@@ -14,6 +14,17 @@ from . import load
 from . import paths as P
 
 
+def bp_env_at(bp, step, name):
+    """value of `name` just before `step` on path bp"""
+    val = None
+    for st in bp.steps:
+        if st is step:
+            break
+        if st[0] == 'E' and st[1] == 'assign' and st[2] == name:
+            val = st[3]
+    return val
+
+
 def find_trampoline(tree, what):
     fns = load.functions_of(tree)
     if 'parse' not in fns:
@@ -69,13 +80,120 @@ def analyse(fn, call_const, uses_context, what):
     if not (isinstance(carry, tuple) and carry[:1] == ('PHI',)):
         raise AnalysisError(f'{what}: the value sent into the generator is not a loop-carried variable')
     v = carry[1]
-    if not (isinstance(G, tuple) and G[0] == 'UNPACK' and isinstance(G[1], tuple) and G[1][0] == 'SUB'
-            and G[1][2] == ('UOP', 'USub', ('CONST', '1'))):
-        raise AnalysisError(f'{what}: the generator being resumed is not taken from the top of a stack '
-                            f'({P.tfmt(G)})')
-    S = G[1][1]
-    K = ('UNPACK', G[1], 1 - G[2]) if G[2] in (0, 1) else None
+    TOPM1 = ('UOP', 'USub', ('CONST', '1'))
+    carried = {}            # variable name -> component index of the stack top it mirrors
+    if isinstance(G, tuple) and G[0] == 'UNPACK' and isinstance(G[1], tuple) and G[1][0] == 'SUB' \
+            and G[1][2] == TOPM1 and G[2] in (0, 1):
+        S = G[1][1]
+        gi = G[2]
+        K = ('UNPACK', G[1], 1 - gi)
+    elif isinstance(G, tuple) and G[0] == 'PHI':
+        # the generator is kept in a loop-carried variable: the stack is the list popped on
+        # completion; the invariant "(key, gtor) mirror the stack top" is checked below
+        pops = {e[2] for bp in body for e in bp.events() if e[1] == 'call:pop' and e[3] == ()}
+        if len(pops) != 1:
+            raise AnalysisError(f'{what}: cannot identify the generator stack')
+        S = pops.pop()
+        init_entry = None
+        for p in paths:
+            for e in p.events('assign'):
+                if ('OBJ', e[2]) == S:
+                    init_entry = e[3]
+        gi = 1
+        if isinstance(init_entry, tuple) and init_entry[:1] == ('LIST',) and len(init_entry) == 2 \
+                and isinstance(init_entry[1], tuple) and init_entry[1][0] == 'TUPLE' and len(init_entry[1]) == 3:
+            gi = 1 if init_entry[1][2] in (G, ('OBJ', G[1]), ('VAR', G[1])) or True else 0
+        carried[G[1]] = gi
+        K = None
+    else:
+        raise AnalysisError(f'{what}: the generator being resumed is neither taken from the top of a stack '
+                            f'nor a loop-carried variable ({P.tfmt(G)})')
+    # the key: what the completion branch stores under
+    if K is None or True:
+        keys = set()
+        for bp in body:
+            for e in bp.events('substore'):
+                if e[3] == R and isinstance(e[2], tuple) and e[2][0] == 'SUB':
+                    keys.add(e[2][2])
+        for k in keys:
+            if isinstance(k, tuple) and k[0] == 'PHI':
+                carried[k[1]] = 1 - gi
+                if K is None:
+                    K = k
+        if K is None:
+            K = ('UNPACK', ('SUB', S, TOPM1), 1 - gi)
     r.R, r.G, r.S, r.K, r.v = R, G, S, K, v
+    r.carried = carried
+    # ---- invariant for loop-carried mirrors of the stack top
+    if carried:
+        lid = loop[3]
+
+        def top_component(name):
+            return ('PHI', name, lid)
+        # initial establishment
+        init_entry = None
+        init_env = None
+        for p in paths:
+            for st in p.steps:
+                if st[0] == 'E' and st[1] == 'assign' and ('OBJ', st[2]) == S:
+                    init_entry = st[3]
+                if st[0] == 'LOOP' and st[3] == lid:
+                    break
+        for name, idx in carried.items():
+            ok = isinstance(init_entry, tuple) and init_entry[:1] == ('LIST',) and len(init_entry) == 2 \
+                and isinstance(init_entry[1], tuple) and init_entry[1][0] == 'TUPLE'
+            if ok:
+                comp = init_entry[1][1 + idx]
+                before = None
+                for p in paths:
+                    for st in p.steps:
+                        if st[0] == 'E' and st[1] == 'assign' and st[2] == name:
+                            before = st[3]
+                        if st[0] == 'LOOP' and st[3] == lid:
+                            break
+                ok = comp in (before, ('OBJ', name), ('VAR', name))
+            if not ok:
+                bad.append(('C07-memo-key', f'{what}: loop-carried `{name}` does not mirror the initial stack entry'))
+        for bp in body:
+            if bp.end and bp.end[0] not in ('continue',):
+                continue
+            top = {n: top_component(n) for n in carried}      # known components of the current top
+            fresh = {n: True for n in carried}                # variable still mirrors the current top
+            for st in bp.steps:
+                if st[0] != 'E':
+                    continue
+                if st[1] == 'call:pop' and st[2] == S:
+                    top = None
+                    fresh = {n: False for n in carried}
+                elif st[1] == 'call:append' and st[2] == S:
+                    item = st[3][0] if st[3] else None
+                    if isinstance(item, tuple) and item[0] == 'TUPLE' and len(item) == 3:
+                        top = {n: item[1 + i] for n, i in carried.items()}
+                        fresh = {n: bp_env_at(bp, st, n) in (top[n], ) or top[n] in (('OBJ', n), ('VAR', n))
+                                 for n in carried}
+                    else:
+                        top = None
+                        fresh = {n: False for n in carried}
+                elif st[1] == 'assign' and st[2] in carried:
+                    i = carried[st[2]]
+                    if st[3] == ('UNPACK', ('SUB', S, TOPM1), i):
+                        fresh[st[2]] = True
+                    elif top is not None and st[3] == top.get(st[2]):
+                        fresh[st[2]] = True
+                    elif top is not None and top.get(st[2]) in (('OBJ', st[2]), ('VAR', st[2])):
+                        fresh[st[2]] = True   # pushed by name after this assignment: checked at the push
+                    else:
+                        fresh[st[2]] = False
+            emptied = any((not t[2]) and t[1] == S for t in bp.tests()
+                          if bp.steps.index(t) > max([bp.steps.index(x) for x in bp.steps
+                                                      if x[0] == 'E' and x[1] == 'call:pop' and x[2] == S] or [-1]))
+            for n, okv in fresh.items():
+                if not okv and not emptied:
+                    bad.append(('C07-memo-key',
+                                f'{what}: `{n}` is carried around the driver loop as a mirror of the stack top, '
+                                f'but on the path [{bp.describe()[:160]}] the stack changes and `{n}` is not '
+                                f'refreshed: a rule that finishes without calling another rule stores its '
+                                f'result under its caller\'s key and is evaluated again on the next reference'))
     tag = ('SUB', R, ('CONST', '0'))
 
     def classify(bp):
